@@ -5,6 +5,7 @@ mod db;
 mod enc;
 mod fault;
 mod hk;
+mod mt;
 mod column;
 mod crash;
 mod sched;
@@ -29,6 +30,7 @@ fn main() {
         "sched" => sched::main(&args[2..]),
         "fault" => fault::main(&args[2..]),
         "column" => column::main(&args[2..]),
+        "mt" => mt::main(&args[2..]),
         other => {
             eprintln!("unknown driver {other}");
             2
